@@ -32,12 +32,16 @@ func checkC15(tier string, seed int64) int {
 	run(2)
 	run(3)
 	if tier == "thorough" {
+		// four packages: 2^16 import relations; file layouts and import spellings restricted to the plain ones
+		// (every layout × spelling is covered with 2 and 3 packages above)
+		c.Eng.Cfg["c15_plain_layout_only"] = 1
 		run(4)
+		delete(c.Eng.Cfg, "c15_plain_layout_only")
 	}
 	c.confirmLemmaFailures(res, func(id string) string {
 		return "package loading obligation " + strings.TrimPrefix(id, "C15/") + " fails"
 	})
 	agg.Into(c, "")
-	c.Assumption("every import relation over 2 and 3 (thorough: 4) packages plus main (one boolean per ordered pair and per main import) × 9 file layouts (plain two-file, vendor/, shortened path, vendor + long path, single file, with _test.go / //go:build ignore / !goat / goat files, conflicting package clause, full path plus a decoy directory at a shorter suffix, vendor/ plus a decoy at the plain path) × 4 import spellings; all branching is on these input bits, so the exploration enumerates the graphs; the real Load runs on an in-memory file tree (tokenize and build-constraint evaluation delegated natively, io/fs modelled over the map)")
+	c.Assumption("every import relation over 2 and 3 packages plus main (thorough: also 4 packages, with the plain two-file layout and the two plain import spellings only) (one boolean per ordered pair and per main import) × 9 file layouts (plain two-file, vendor/, shortened path, vendor + long path, single file, with _test.go / //go:build ignore / !goat / goat files, conflicting package clause, full path plus a decoy directory at a shorter suffix, vendor/ plus a decoy at the plain path) × 4 import spellings; all branching is on these input bits, so the exploration enumerates the graphs; the real Load runs on an in-memory file tree (tokenize and build-constraint evaluation delegated natively, io/fs modelled over the map)")
 	return c.Finish(false)
 }
